@@ -162,6 +162,32 @@ func (e *FnEnc) inMapRange(b *ssa.BasicBlock) bool {
 	return false
 }
 
+// leftEarly: the loop with header h has an exit other than its header's (a break or a return in its body).
+func (e *FnEnc) leftEarly(h *ssa.BasicBlock) bool {
+	li := e.loops[h]
+	if li == nil {
+		return false
+	}
+	for b := range li.blocks {
+		if b == h {
+			continue
+		}
+		for _, sc := range b.Succs {
+			if !li.blocks[sc] {
+				return true
+			}
+		}
+		if len(b.Instrs) > 0 {
+			if _, isRet := b.Instrs[len(b.Instrs)-1].(*ssa.Return); isRet {
+				return true
+			}
+		}
+	}
+	// blocks that leave the loop at once (a break) are not part of the natural loop: look at the successors of body
+	// blocks that are outside the loop and are not the header's own exit
+	return false
+}
+
 // mapRangeHeader: b is the header of a loop that ranges over a map.
 func (e *FnEnc) mapRangeHeader(b *ssa.BasicBlock) bool {
 	for _, in := range b.Instrs {
@@ -358,11 +384,24 @@ func (e *FnEnc) bagTransfer(b *bagSt, in ssa.Instruction, report bool) {
 		if c, ok := i.Tuple.(*ssa.Call); ok && e.calleeBagResult(&c.Call, i.Index) {
 			b.vals[i] = true
 		}
+		// the key or value of a map range that can be left early: which element it is when the loop is left depends on
+		// the iteration order. The element is tracked like an unordered collection: appending it, storing it or
+		// returning it inside a collection carries the order dependence along.
+		if nx, ok := i.Tuple.(*ssa.Next); ok && !nx.IsString && i.Index >= 1 {
+			if r, ok := nx.Iter.(*ssa.Range); ok {
+				if _, isMap := r.X.Type().Underlying().(*types.Map); isMap && e.leftEarly(nx.Block()) {
+					b.vals[i] = true
+				}
+			}
+		}
 	case *ssa.MakeInterface:
 		if b.vals[i.X] {
 			b.vals[i] = true
 		}
 	case *ssa.Store:
+		if !isCarrierT(i.Val.Type()) && b.vals[i.Val] {
+			b.cellSet(i.Addr) // an order-dependent element stored into an object
+		}
 		if isCarrierT(i.Val.Type()) {
 			if report && isSliceT(i.Val.Type()) && b.vals[i.Val] && e.con.Concurrent && e.fromFreeVar(i.Addr) {
 				e.bagViolation("a concurrently running function stores an unordered collection into shared state", i)
